@@ -423,6 +423,10 @@ func c17CorsTable(c *core.Ctx) {
 				// the reflected value is the request's Origin header
 				d, _ := u.SingleDef(a.val)
 				okReflect = strings.Contains(core.ExprString(d), `Peek("Origin")`) || strings.Contains(core.ExprString(d), `Get("Origin")`)
+				// a request without Origin gets no (empty) Access-Control-Allow-Origin line (fix 2161a15)
+				if id, isID := ast.Unparen(a.val).(*ast.Ident); isID {
+					okReflect = okReflect && g.GuardedBy(a.loc, gStrLocalNonEmpty(id.Name))
+				}
 			default:
 				// the header names an origin (or '*') only when the policy allows
 				// it: the refusing edge sets no Access-Control-Allow-Origin at all
